@@ -1,9 +1,12 @@
-(* C09 — refinement: on the acyclic fragment the call-by-need machine (Need.v, mode Good)
-   computes what the call-by-name semantics (Spec.v) computes.
+(* C09 — refinement: the call-by-need machine (Need.v, mode Good) computes what the
+   call-by-name semantics (Spec.v) computes, for every program whose record literals have
+   distinct field names — let rec and recursive records included.
 
    Invariant: every cell of the heap unfolds (through the closures the cells were allocated
    with) to a call-by-name binding, and every Evaluated cell holds a value that unfolds to what
-   its original closure evaluates to in the call-by-name semantics. *)
+   its original closure evaluates to in the call-by-name semantics.  A cell allocated for a
+   plain binding refers to older cells only; the cells of a recursive group ([let rec], or the
+   fields of a record literal) refer to each other and unfold to the members of a [BRec]. *)
 From Coq Require Import List String ZArith Bool Lia Arith.
 From NV Require Import Lazy.Syntax Lazy.Spec Lazy.SpecFacts Lazy.RelFacts Lazy.FieldPath Lazy.Need.
 Import ListNotations.
@@ -12,10 +15,29 @@ Open Scope list_scope.
 
 (* ------------------------------------------------------------------ unfolding the heap *)
 
+Definition older (l : loc) (nrho : nenv) : Prop := Forall (fun p => snd p < l) nrho.
+
+(* the cells [base, base + |defs|) hold the members of a recursive group allocated in [nrho]:
+   [a = true] for let rec (standard thunks, every member sees the group), [a = false] for a
+   record literal (members that mention a sibling are revertible thunks that see the group, the
+   others are standard thunks in the outer environment) *)
+Definition sees (a : bool) (defs : list (string * tm)) (p : string * tm) : bool :=
+  a || has_deps (map fst defs) (snd p).
+
+Definition group (h : heap) (base : nat) (a : bool) (defs : list (string * tm)) (nrho : nenv) : Prop :=
+  forall j p, nth_error defs j = Some p ->
+    exists c, nth_error h (base + j) = Some c /\ c_tm c = snd p /\
+      c_env c = (if sees a defs p then field_locs base defs ++ nrho else nrho) /\
+      c_kind c = (if a then Standard else if sees a defs p then Revertible else Standard).
+
 Inductive U (h : heap) : loc -> binding -> Prop :=
 | U_cell : forall l c rho,
-    nth_error h l = Some c -> acyclic (c_tm c) = true -> UE h (c_env c) rho ->
+    nth_error h l = Some c -> c_kind c = Standard -> older l (c_env c) -> UE h (c_env c) rho ->
     U h l (BClos (c_tm c) rho)
+| U_grp : forall base a defs nrho rho i p,
+    older base nrho -> UE h nrho rho -> group h base a defs nrho ->
+    nth_error defs i = Some p -> nodup_names (map fst defs) = true -> sees a defs p = true ->
+    U h (base + i) (BRec a defs rho (fst p))
 with UE (h : heap) : nenv -> env -> Prop :=
 | UE_nil : UE h [] []
 | UE_cons : forall x l b nrho rho, U h l b -> UE h nrho rho -> UE h ((x, l) :: nrho) ((x, b) :: rho).
@@ -28,7 +50,7 @@ Inductive VU (h : heap) : nval -> val -> Prop :=
 | VU_num : forall z, VU h (NNum z) (VNum z)
 | VU_str : forall s, VU h (NStr s) (VStr s)
 | VU_bool : forall b, VU h (NBool b) (VBool b)
-| VU_clo : forall x b nrho rho, acyclic b = true -> UE h nrho rho -> VU h (NClo x b nrho) (VClo x b rho)
+| VU_clo : forall x b nrho rho, wft b = true -> UE h nrho rho -> VU h (NClo x b nrho) (VClo x b rho)
 | VU_arr : forall ls bs, Forall2 (U h) ls bs -> VU h (NArr ls) (VArr bs)
 | VU_rec : forall fs bs,
     Forall2 (fun p q => fst p = fst q /\ U h (snd p) (snd q)) fs bs -> VU h (NRec fs) (VRec bs).
@@ -36,23 +58,30 @@ Inductive VU (h : heap) : nval -> val -> Prop :=
 (* heap evolution: cells are only added, and a cell keeps the closure it was allocated with *)
 Definition hext (h h' : heap) : Prop :=
   forall l c, nth_error h l = Some c ->
-    exists c', nth_error h' l = Some c' /\ c_tm c' = c_tm c /\ c_env c' = c_env c.
+    exists c', nth_error h' l = Some c' /\ c_tm c' = c_tm c /\ c_env c' = c_env c /\ c_kind c' = c_kind c.
 
 Lemma hext_refl : forall h, hext h h.
 Proof. intros h l c H. eauto. Qed.
 
 Lemma hext_trans : forall h1 h2 h3, hext h1 h2 -> hext h2 h3 -> hext h1 h3.
 Proof.
-  intros h1 h2 h3 H1 H2 l c Hc. destruct (H1 l c Hc) as [c' [Hc' [E1 E2]]].
-  destruct (H2 l c' Hc') as [c'' [Hc'' [E3 E4]]]. exists c''. repeat split; congruence.
+  intros h1 h2 h3 H1 H2 l c Hc. destruct (H1 l c Hc) as [c' [Hc' [E1 [E2 E3]]]].
+  destruct (H2 l c' Hc') as [c'' [Hc'' [E4 [E5 E6]]]]. exists c''. repeat split; congruence.
+Qed.
+
+Lemma group_mono : forall h h' base a defs nrho, hext h h' -> group h base a defs nrho -> group h' base a defs nrho.
+Proof.
+  intros h h' base a defs nrho Hx Hg j p Hp. destruct (Hg j p Hp) as [c [Hc [E1 [E2 E3]]]].
+  destruct (Hx _ _ Hc) as [c' [Hc' [F1 [F2 F3]]]]. exists c'. repeat split; congruence.
 Qed.
 
 Lemma U_mono_mut : forall h h', hext h h' ->
   (forall l b, U h l b -> U h' l b) /\ (forall nrho rho, UE h nrho rho -> UE h' nrho rho).
 Proof.
   intros h h' Hx. apply U_mutind.
-  - intros l c rho Hc Ha _ IH. destruct (Hx l c Hc) as [c' [Hc' [E1 E2]]].
-    rewrite <- E1. apply U_cell; [assumption|congruence|congruence].
+  - intros l c rho Hc Hk Ho _ IH. destruct (Hx l c Hc) as [c' [Hc' [E1 [E2 E3]]]].
+    rewrite <- E1. apply U_cell; congruence.
+  - intros base a defs nrho rho i p Ho _ IH Hg Hp Hn Hs. eapply U_grp; eauto using group_mono.
   - constructor.
   - intros. constructor; auto.
 Qed.
@@ -69,13 +98,104 @@ Proof.
   - induction H; constructor; auto. destruct H. split; eauto using U_mono.
 Qed.
 
+(* ---- the unfolding of a cell is unique *)
+
+Lemma field_locs_In : forall defs base i (p : string * tm),
+  nth_error defs i = Some p -> In (fst p, base + i) (field_locs base defs).
+Proof.
+  induction defs as [|[f e] defs IH]; intros base [|i] p H; cbn in H; try discriminate; cbn [field_locs].
+  - injection H as <-. left. cbn [fst]. now rewrite Nat.add_0_r.
+  - right. replace (base + S i) with (S base + i) by lia. now apply IH.
+Qed.
+
+Lemma field_locs_ge : forall defs base q, In q (field_locs base defs) -> base <= snd q.
+Proof.
+  induction defs as [|[f e] defs IH]; intros base q H; cbn [field_locs] in H; [contradiction|].
+  destruct H as [<-|H]; [cbn; lia|]. apply IH in H. lia.
+Qed.
+
+Lemma split_by_age : forall base (l1 l2 r1 r2 : nenv),
+  l1 ++ r1 = l2 ++ r2 ->
+  (forall q, In q l1 -> base <= snd q) -> (forall q, In q l2 -> base <= snd q) ->
+  older base r1 -> older base r2 -> l1 = l2 /\ r1 = r2.
+Proof.
+  induction l1 as [|a l1 IH]; intros [|b l2] r1 r2 E H1 H2 O1 O2; cbn in E.
+  - auto.
+  - subst r1. inversion O1 as [|? ? Hb _]; subst. specialize (H2 b (or_introl eq_refl)). cbn beta in *. exfalso. unfold loc in *. lia.
+  - subst r2. inversion O2 as [|? ? Ha _]; subst. specialize (H1 a (or_introl eq_refl)). cbn beta in *. exfalso. unfold loc in *. lia.
+  - injection E as -> E. destruct (IH l2 r1 r2 E) as [-> ->]; auto.
+    + intros q Hq. apply H1. now right.
+    + intros q Hq. apply H2. now right.
+Qed.
+
+Lemma field_locs_names : forall d1 d2 base, field_locs base d1 = field_locs base d2 -> map fst d1 = map fst d2.
+Proof.
+  induction d1 as [|[f e] d1 IH]; intros [|[g e'] d2] base H; cbn in *; try discriminate; auto.
+  injection H as -> H. f_equal. eauto.
+Qed.
+
+Lemma nth_error_names : forall (d : list (string * tm)) j p, nth_error d j = Some p -> nth_error (map fst d) j = Some (fst p).
+Proof. intros. now rewrite nth_error_map, H. Qed.
+
+Lemma list_eq_nth : forall A (l1 l2 : list A),
+  List.length l1 = List.length l2 ->
+  (forall j a b, nth_error l1 j = Some a -> nth_error l2 j = Some b -> a = b) -> l1 = l2.
+Proof.
+  induction l1 as [|a l1 IH]; intros [|b l2] Hl H; cbn in Hl; try discriminate; auto.
+  f_equal.
+  - exact (H 0 a b eq_refl eq_refl).
+  - apply IH; [lia|]. intros j x y Hx Hy. exact (H (S j) x y Hx Hy).
+Qed.
+
 Lemma U_det_mut : forall h,
   (forall l b, U h l b -> forall b', U h l b' -> b = b') /\
   (forall nrho rho, UE h nrho rho -> forall rho', UE h nrho rho' -> rho = rho').
 Proof.
   intros h. apply U_mutind.
-  - intros l c rho Hc Ha _ IH b' Hb'. inversion Hb' as [l' c' rho' Hc' Ha' He']; subst.
-    assert (c' = c) by congruence. subst c'. f_equal. now apply IH.
+  - intros l c rho Hc Hk Ho _ IH b' Hb'.
+    inversion Hb' as [l' c' rho' Hc' Hk' Ho' He'|base a defs nrho rho' i p Ho' He' Hg Hp Hn Hs]; subst.
+    + assert (c' = c) by congruence. subst c'. f_equal. now apply IH.
+    + exfalso. destruct (Hg i p Hp) as [c' [Hc' [E1 [E2 E3]]]].
+      assert (c' = c) by congruence. subst c'. rewrite Hs in E2.
+      pose proof (field_locs_In defs base i p Hp) as Hin.
+      unfold older in Ho. rewrite Forall_forall in Ho.
+      assert (Hx : In (fst p, base + i) (c_env c)) by (rewrite E2; apply in_app_iff; now left).
+      specialize (Ho _ Hx). cbn in Ho. lia.
+  - intros base a defs nrho rho i p Ho _ IH Hg Hp Hn Hs b' Hb'.
+    inversion Hb' as [l' c' rho' Hc' Hk' Ho' He'|base' a' defs' nrho' rho' i' p' Ho' He' Hg' Hp' Hn' Hs' Heq]; subst.
+    + exfalso. destruct (Hg i p Hp) as [c [Hc [E1 [E2 E3]]]].
+      assert (c' = c) by congruence. subst c'. rewrite Hs in E2.
+      pose proof (field_locs_In defs base i p Hp) as Hin.
+      unfold older in Ho'. rewrite Forall_forall in Ho'.
+      assert (Hx : In (fst p, base + i) (c_env c)) by (rewrite E2; apply in_app_iff; now left).
+      specialize (Ho' _ Hx). cbn in Ho'. lia.
+    + destruct (Hg i p Hp) as [c [Hc [E1 [E2 E3]]]].
+      destruct (Hg' i' p' Hp') as [c' [Hc' [E1' [E2' E3']]]].
+      rewrite Heq in Hc'. assert (c' = c) by congruence. subst c'.
+      rewrite Hs in E2, E3. rewrite Hs' in E2', E3'.
+      assert (Hne : defs <> [] /\ defs' <> []).
+      { split; intros ->; [destruct i|destruct i']; discriminate. }
+      destruct Hne as [Hne Hne'].
+      assert (Hb : base' = base).
+      { destruct defs as [|[f e] defs]; [congruence|]. destruct defs' as [|[f' e'] defs']; [congruence|].
+        rewrite E2 in E2'. cbn [field_locs app] in E2'. injection E2' as _ Hb _. auto. }
+      subst base'. assert (i' = i) by lia. subst i'.
+      destruct (split_by_age base (field_locs base defs) (field_locs base defs') nrho nrho') as [Hfl Hnr];
+        [congruence|apply field_locs_ge|apply field_locs_ge|assumption|assumption|].
+      subst nrho'. pose proof (field_locs_names _ _ _ Hfl) as Hnames.
+      assert (Hlen : List.length defs = List.length defs').
+      { rewrite <- (map_length fst defs), <- (map_length fst defs'). congruence. }
+      assert (defs' = defs).
+      { symmetry. apply list_eq_nth; [assumption|]. intros j q q' Hq Hq'.
+        destruct (Hg j q Hq) as [d [Hd [F1 _]]]. destruct (Hg' j q' Hq') as [d' [Hd' [F1' _]]].
+        assert (d' = d) by congruence. subst d'.
+        pose proof (nth_error_names _ _ _ Hq) as N1. pose proof (nth_error_names _ _ _ Hq') as N2.
+        rewrite Hnames in N1. rewrite N1 in N2. injection N2 as N2.
+        destruct q, q'. cbn in *. congruence. }
+      subst defs'. assert (p' = p) by congruence. subst p'.
+      assert (a' = a).
+      { destruct a, a'; auto; cbn in E3, E3'; congruence. }
+      subst a'. f_equal. now apply IH.
   - intros rho' H. now inversion H.
   - intros x l b nrho rho _ IH1 _ IH2 rho' H. inversion H; subst. f_equal; [f_equal|]; auto.
 Qed.
@@ -98,14 +218,26 @@ Proof.
   destruct (String.eqb x y); [discriminate|assumption].
 Qed.
 
+Lemma U_bound : forall h l b, U h l b -> l < List.length h.
+Proof.
+  intros h l b H. destruct H as [l c rho Hc _ _ _|base a defs nrho rho i p _ _ Hg Hp _ _].
+  - apply nth_error_Some. congruence.
+  - destruct (Hg i p Hp) as [c [Hc _]]. apply nth_error_Some. congruence.
+Qed.
+
+Lemma UE_older : forall h nrho rho, UE h nrho rho -> older (List.length h) nrho.
+Proof.
+  intros h nrho rho H. induction H; constructor; auto. cbn. eapply U_bound; eauto.
+Qed.
+
 (* ------------------------------------------------------------------ invariants *)
 
 Section Ref.
 Variable fl : files.
-Hypothesis fl_acyclic : forallb (fun p => acyclic (snd p)) fl = true.
+Hypothesis fl_wf : forallb (fun p => wft (snd p)) fl = true.
 
 Definition WF (h : heap) : Prop :=
-  forall l c, nth_error h l = Some c -> acyclic (c_tm c) = true /\ exists rho, UE h (c_env c) rho.
+  forall l c, nth_error h l = Some c -> wft (c_tm c) = true /\ exists b, U h l b.
 
 Definition IV (h : heap) : Prop :=
   forall l c b, nth_error h l = Some c -> c_state c = Evaluated -> U h l b ->
@@ -114,10 +246,7 @@ Definition IV (h : heap) : Prop :=
 Definition Inv (h : heap) : Prop := WF h /\ IV h.
 
 Lemma WF_U : forall h l c, WF h -> nth_error h l = Some c -> exists b, U h l b.
-Proof.
-  intros h l c Hw Hc. destruct (Hw l c Hc) as [Ha [rho Hr]]. exists (BClos (c_tm c) rho).
-  now apply U_cell.
-Qed.
+Proof. intros h l c Hw Hc. now destruct (Hw l c Hc). Qed.
 
 (* ---- allocation *)
 
@@ -132,16 +261,17 @@ Qed.
 
 Lemma Inv_app : forall h cs,
   Inv h ->
-  (forall c, In c cs -> c_state c = Suspended /\ acyclic (c_tm c) = true /\
-                        exists rho, UE (h ++ cs) (c_env c) rho) ->
+  (forall j c, nth_error cs j = Some c -> c_state c = Suspended /\ wft (c_tm c) = true /\
+                        exists b, U (h ++ cs) (List.length h + j) b) ->
   Inv (h ++ cs).
 Proof.
   intros h cs [Hw Hi] Hcs. split.
   - intros l c Hc. destruct (lt_dec l (List.length h)) as [Hl|Hl].
-    + rewrite nth_error_app1 in Hc by assumption. destruct (Hw l c Hc) as [Ha [rho Hr]].
-      split; [assumption|]. exists rho. eapply UE_mono; [apply hext_app|eassumption].
-    + rewrite nth_error_app2 in Hc by lia. apply nth_error_In in Hc.
-      destruct (Hcs c Hc) as [_ [Ha Hr]]. auto.
+    + rewrite nth_error_app1 in Hc by assumption. destruct (Hw l c Hc) as [Ha [b Hb]].
+      split; [assumption|]. exists b. eapply U_mono; [apply hext_app|eassumption].
+    + rewrite nth_error_app2 in Hc by lia.
+      destruct (Hcs _ c Hc) as [_ [Ha Hr]]. split; [assumption|].
+      replace (List.length h + (l - List.length h)) with l in Hr by lia. assumption.
   - intros l c b Hc Hs Hu. destruct (lt_dec l (List.length h)) as [Hl|Hl].
     + rewrite nth_error_app1 in Hc by assumption.
       destruct (WF_U h l c Hw Hc) as [b0 Hb0].
@@ -149,21 +279,106 @@ Proof.
       { eapply U_det; [exact Hu|]. eapply U_mono; [apply hext_app|exact Hb0]. }
       subst b0. destruct (Hi l c b Hc Hs Hb0) as [nv [m [v [E1 [E2 E3]]]]].
       exists nv, m, v. repeat split; auto. eapply VU_mono; [apply hext_app|eassumption].
-    + rewrite nth_error_app2 in Hc by lia. apply nth_error_In in Hc.
-      destruct (Hcs c Hc) as [Hsu _]. congruence.
+    + rewrite nth_error_app2 in Hc by lia.
+      destruct (Hcs _ c Hc) as [Hsu _]. congruence.
 Qed.
 
 Lemma alloc_ref : forall h t nrho rho,
-  Inv h -> acyclic t = true -> UE h nrho rho ->
-  let h' := h ++ [mkcell t nrho Suspended None] in
+  Inv h -> wft t = true -> UE h nrho rho ->
+  let h' := h ++ [mkcell t nrho Standard Suspended None] in
   hext h h' /\ Inv h' /\ U h' (List.length h) (BClos t rho).
 Proof.
-  intros h t nrho rho Hinv Ha Hr h'. subst h'. split; [apply hext_app|]. split.
-  - apply Inv_app; [assumption|]. intros c [<-|[]]. cbn. repeat split; auto.
-    exists rho. eapply UE_mono; [apply hext_app|eassumption].
-  - apply (U_cell _ _ (mkcell t nrho Suspended None)); cbn; auto.
-    + apply nth_error_app_new.
-    + eapply UE_mono; [apply hext_app|eassumption].
+  intros h t nrho rho Hinv Ha Hr h'. subst h'.
+  assert (Hu : U (h ++ [mkcell t nrho Standard Suspended None]) (List.length h) (BClos t rho)).
+  { apply (U_cell _ _ (mkcell t nrho Standard Suspended None)); cbn; auto.
+    - apply nth_error_app_new.
+    - eapply UE_older; eauto.
+    - eapply UE_mono; [apply hext_app|eassumption]. }
+  split; [apply hext_app|]. split; [|assumption].
+  apply Inv_app; [assumption|]. intros [|[|j]] c Hc; cbn in Hc; try discriminate.
+  injection Hc as <-. cbn. repeat split; auto. rewrite Nat.add_0_r. eauto.
+Qed.
+
+(* ---- recursive groups *)
+
+Lemma nodup_lookup : forall (defs : list (string * tm)) i p,
+  nodup_names (map fst defs) = true -> nth_error defs i = Some p -> lookup (fst p) defs = Some (snd p).
+Proof.
+  induction defs as [|[f e] defs IH]; intros [|i] p Hn Hp; cbn in Hp; try discriminate.
+  - injection Hp as <-. cbn. now rewrite String.eqb_refl.
+  - cbn [map fst nodup_names] in Hn. apply andb_prop in Hn. destruct Hn as [Hn1 Hn2].
+    cbn [lookup]. destruct (String.eqb (fst p) f) eqn:E.
+    + apply String.eqb_eq in E. subst f. apply negb_true_iff in Hn1. apply mem_false_In in Hn1.
+      exfalso. apply Hn1. apply in_map_iff. exists p. split; [reflexivity|]. eapply nth_error_In; eauto.
+    + eauto.
+Qed.
+
+Lemma older_weaken : forall l l' nrho, older l nrho -> l <= l' -> older l' nrho.
+Proof.
+  intros l l' nrho H Hle. unfold older in *. rewrite Forall_forall in *. intros p Hp.
+  specialize (H p Hp). unfold loc in *. lia.
+Qed.
+
+Lemma group_member_U : forall h base a defs nrho rho j p,
+  older base nrho -> UE h nrho rho -> group h base a defs nrho ->
+  nodup_names (map fst defs) = true -> nth_error defs j = Some p ->
+  U h (base + j) (snd (member_binding a defs rho p)).
+Proof.
+  intros h base a defs nrho rho j p Ho Hr Hg Hn Hp. unfold member_binding. cbn [snd].
+  fold (sees a defs p). destruct (sees a defs p) eqn:Hs.
+  - eapply U_grp; eauto.
+  - destruct (Hg j p Hp) as [c [Hc [E1 [E2 E3]]]]. rewrite Hs in E2, E3.
+    assert (a = false) by (unfold sees in Hs; destruct a; [discriminate|reflexivity]). subst a.
+    rewrite <- E1. apply U_cell; [assumption|assumption| |congruence].
+    rewrite E2. eapply older_weaken; eauto. lia.
+Qed.
+
+Lemma group_members : forall h base a defs nrho rho,
+  older base nrho -> UE h nrho rho -> group h base a defs nrho ->
+  nodup_names (map fst defs) = true ->
+  Forall2 (fun p q => fst p = fst q /\ U h (snd p) (snd q))
+    (field_locs base defs) (map (member_binding a defs rho) defs).
+Proof.
+  intros h base a defs nrho rho Ho Hr Hg Hn.
+  assert (G : forall l k, (forall j p, nth_error l j = Some p -> nth_error defs (k + j) = Some p) ->
+            Forall2 (fun p q => fst p = fst q /\ U h (snd p) (snd q))
+              (field_locs (base + k) l) (map (member_binding a defs rho) l)).
+  { induction l as [|[f e] l IH]; intros k Hl; cbn [field_locs map]; constructor.
+    - cbn [fst snd]. split; [reflexivity|].
+      apply (group_member_U h base a defs nrho rho k (f, e)); auto.
+      specialize (Hl 0 (f, e) eq_refl). now rewrite Nat.add_0_r in Hl.
+    - replace (S (base + k)) with (base + S k) by lia. apply IH. intros j p Hp.
+      replace (S k + j) with (k + S j) by lia. now apply Hl. }
+  specialize (G defs 0). rewrite Nat.add_0_r in G. apply G. intros j p Hp. exact Hp.
+Qed.
+
+Lemma UE_app : forall h l1 m1 n r,
+  Forall2 (fun p q => fst p = fst q /\ U h (snd p) (snd q)) l1 m1 -> UE h n r -> UE h (l1 ++ n) (m1 ++ r).
+Proof.
+  intros h l1 m1 n r H Hr. induction H as [|[x l] [y b] l1 m1 [E Hu] Hl IH]; cbn [app]; [assumption|].
+  cbn [fst snd] in *. subst y. constructor; assumption.
+Qed.
+
+Lemma group_UE : forall h base a defs nrho rho,
+  older base nrho -> UE h nrho rho -> group h base a defs nrho ->
+  nodup_names (map fst defs) = true ->
+  UE h (field_locs base defs ++ nrho) (recenv a defs rho).
+Proof.
+  intros. unfold recenv. apply UE_app; [eapply group_members; eauto|assumption].
+Qed.
+
+(* what forcing the binding of a cell means in terms of the closure stored in the cell *)
+Lemma cell_open : forall h l b c,
+  U h l b -> nth_error h l = Some c ->
+  exists rho', UE h (c_env c) rho' /\ (forall m, force fl m b = eval fl m rho' (c_tm c)).
+Proof.
+  intros h l b c Hu Hc.
+  destruct Hu as [l c' rho Hc' Hk Ho Hr|base a defs nrho rho i p Ho Hr Hg Hp Hn Hs].
+  - assert (c' = c) by congruence. subst c'. exists rho. split; [assumption|reflexivity].
+  - destruct (Hg i p Hp) as [c' [Hc' [E1 [E2 E3]]]]. assert (c' = c) by congruence. subst c'.
+    rewrite Hs in E2. exists (recenv a defs rho). split.
+    + rewrite E2. now apply group_UE.
+    + intros m. unfold force. cbn [force_with]. rewrite (nodup_lookup _ _ _ Hn Hp). now rewrite E1.
 Qed.
 
 (* ---- state changes and updates do not change the unfolding *)
@@ -183,10 +398,10 @@ Qed.
 Definition same_orig (h h' : heap) : Prop := hext h h' /\ hext h' h.
 
 Lemma set_cell_same : forall h l c c',
-  nth_error h l = Some c -> c_tm c' = c_tm c -> c_env c' = c_env c ->
+  nth_error h l = Some c -> c_tm c' = c_tm c -> c_env c' = c_env c -> c_kind c' = c_kind c ->
   same_orig h (set_nth h l c').
 Proof.
-  intros h l c c' Hc E1 E2.
+  intros h l c c' Hc E1 E2 E3.
   assert (Hl : l < List.length h) by (apply nth_error_Some; congruence).
   split; intros j d Hd; destruct (Nat.eq_dec l j) as [->|Hne].
   - rewrite nth_error_set_nth_eq by assumption. exists c'. assert (d = c) by congruence. subst d. auto.
@@ -203,9 +418,8 @@ Proof. intros h h' nv v [H1 H2]. split; apply VU_mono; assumption. Qed.
 
 Lemma WF_same : forall h h', same_orig h h' -> WF h -> WF h'.
 Proof.
-  intros h h' [H1 H2] Hw l c' Hc'. destruct (H2 l c' Hc') as [c [Hc [E1 E2]]].
-  destruct (Hw l c Hc) as [Ha [rho Hr]]. split; [congruence|]. exists rho. rewrite <- E2.
-  eapply UE_mono; eauto.
+  intros h h' Hso Hw l c' Hc'. destruct Hso as [H1 H2]. destruct (H2 l c' Hc') as [c [Hc [E1 [E2 E3]]]].
+  destruct (Hw l c Hc) as [Ha [b Hb]]. split; [congruence|]. exists b. eapply U_mono; eauto.
 Qed.
 
 Lemma Inv_blackhole : forall h l c,
@@ -213,7 +427,8 @@ Lemma Inv_blackhole : forall h l c,
   Inv (set_state h l Blackholed) /\ same_orig h (set_state h l Blackholed).
 Proof.
   intros h l c [Hw Hi] Hc Hs. unfold set_state. rewrite Hc.
-  pose proof (set_cell_same h l c (mkcell (c_tm c) (c_env c) Blackholed (c_val c)) Hc eq_refl eq_refl) as Hso.
+  pose proof (set_cell_same h l c (mkcell (c_tm c) (c_env c) (c_kind c) Blackholed (c_val c)) Hc
+                eq_refl eq_refl eq_refl) as Hso.
   split; [|assumption]. split; [eapply WF_same; eauto|].
   assert (Hl : l < List.length h) by (apply nth_error_Some; congruence).
   intros j d b Hd Hsd Hu. destruct (Nat.eq_dec l j) as [->|Hne].
@@ -228,7 +443,8 @@ Lemma Inv_update : forall h l c b nv m v,
   Inv (update h l nv) /\ same_orig h (update h l nv).
 Proof.
   intros h l c b nv m v [Hw Hi] Hc Hu Hf Hv. unfold update. rewrite Hc.
-  pose proof (set_cell_same h l c (mkcell (c_tm c) (c_env c) Evaluated (Some nv)) Hc eq_refl eq_refl) as Hso.
+  pose proof (set_cell_same h l c (mkcell (c_tm c) (c_env c) (c_kind c) Evaluated (Some nv)) Hc
+                eq_refl eq_refl eq_refl) as Hso.
   split; [|assumption]. split; [eapply WF_same; eauto|].
   assert (Hl : l < List.length h) by (apply nth_error_Some; congruence).
   intros j d b' Hd Hsd Hu'. apply (U_same _ _ _ _ Hso) in Hu'. destruct (Nat.eq_dec l j) as [->|Hne].
@@ -272,8 +488,11 @@ Proof. intros h0 h h' b r Hx [Hx' Hr]. split; [eapply hext_trans; eauto|assumpti
 Definition refines_at (n : nat) : Prop :=
   forall h nrho t r h' rho,
     evalN fl Good n h nrho t = (r, h') -> r <> OutOfFuel -> r <> Err InfiniteRec ->
-    acyclic t = true -> Inv h -> UE h nrho rho -> hext (init_heap fl) h ->
+    wft t = true -> Inv h -> UE h nrho rho -> hext (init_heap fl) h ->
     res_ok h h' (BClos t rho) r.
+
+Lemma force_clos : forall m t rho, force fl m (BClos t rho) = eval fl m rho t.
+Proof. reflexivity. Qed.
 
 Lemma enter_ref : forall n, refines_at n ->
   forall h l r h' b,
@@ -282,26 +501,31 @@ Lemma enter_ref : forall n, refines_at n ->
     res_ok h h' b r.
 Proof.
   intros n IH h l r h' b He Ho Hi Hinv Hu Hf. unfold enter_with in He.
-  inversion Hu as [l0 c rhoc Hc Ha Hr]; subst l0 b. rewrite Hc in He.
+  pose proof (U_bound _ _ _ Hu) as Hl.
+  destruct (nth_error h l) as [c|] eqn:Hc; [|apply nth_error_None in Hc; lia].
+  destruct (cell_open h l b c Hu Hc) as [rhoc [Hr Hforce]].
+  destruct (proj1 Hinv l c Hc) as [Ha _].
+  assert (SH : forall h0 h1 r0, res_ok h0 h1 (BClos (c_tm c) rhoc) r0 -> res_ok h0 h1 b r0).
+  { intros h0 h1 r0. apply res_ok_shift. intros m o Hm _. exists m. rewrite Hforce. exact Hm. }
   destruct (c_state c) eqn:Hs.
   - (* Suspended *)
     destruct (is_whnf (c_tm c)).
     + destruct (evalN fl Good n h (c_env c) (c_tm c)) as [[nv|e|] h1] eqn:E.
       * injection He as <- <-.
-        destruct (IH _ _ _ _ _ _ E ltac:(discriminate) ltac:(discriminate) Ha Hinv Hr Hf)
+        destruct (SH _ _ _ (IH _ _ _ _ _ _ E ltac:(discriminate) ltac:(discriminate) Ha Hinv Hr Hf))
           as [Hx [Hinv1 [m [v [Ev Vv]]]]].
         destruct (Hx l c Hc) as [c1 [Hc1 _]].
         destruct (Inv_update h1 l c1 _ nv m v Hinv1 Hc1 (U_mono _ _ _ _ Hx Hu) Ev Vv) as [Hinv2 Hso].
         split; [eapply hext_trans; [exact Hx|apply Hso]|]. split; [assumption|].
         exists m, v. split; [assumption|]. now apply (VU_same _ _ _ _ Hso).
       * injection He as <- <-.
-        exact (IH _ _ _ _ _ _ E ltac:(discriminate) Hi Ha Hinv Hr Hf).
+        exact (SH _ _ _ (IH _ _ _ _ _ _ E ltac:(discriminate) Hi Ha Hinv Hr Hf)).
       * injection He as <- <-. congruence.
     + destruct (Inv_blackhole h l c Hinv Hc Hs) as [Hinv0 Hso0].
       destruct (evalN fl Good n (set_state h l Blackholed) (c_env c) (c_tm c)) as [[nv|e|] h1] eqn:E.
       * injection He as <- <-. cbn [upd_target].
-        destruct (IH _ _ _ _ _ _ E ltac:(discriminate) ltac:(discriminate) Ha Hinv0
-                    (UE_mono _ _ _ _ (proj1 Hso0) Hr) (hext_trans _ _ _ Hf (proj1 Hso0)))
+        destruct (SH _ _ _ (IH _ _ _ _ _ _ E ltac:(discriminate) ltac:(discriminate) Ha Hinv0
+                    (UE_mono _ _ _ _ (proj1 Hso0) Hr) (hext_trans _ _ _ Hf (proj1 Hso0))))
           as [Hx [Hinv1 [m [v [Ev Vv]]]]].
         pose proof (hext_trans _ _ _ (proj1 Hso0) Hx) as Hx'.
         destruct (Hx' l c Hc) as [c1 [Hc1 _]].
@@ -310,8 +534,8 @@ Proof.
         exists m, v. split; [assumption|]. now apply (VU_same _ _ _ _ Hso).
       * injection He as <- <-.
         eapply res_ok_hext; [apply Hso0|].
-        exact (IH _ _ _ _ _ _ E ltac:(discriminate) Hi Ha Hinv0
-                 (UE_mono _ _ _ _ (proj1 Hso0) Hr) (hext_trans _ _ _ Hf (proj1 Hso0))).
+        exact (SH _ _ _ (IH _ _ _ _ _ _ E ltac:(discriminate) Hi Ha Hinv0
+                 (UE_mono _ _ _ _ (proj1 Hso0) Hr) (hext_trans _ _ _ Hf (proj1 Hso0)))).
       * injection He as <- <-. congruence.
   - (* Blackholed *) injection He as <- <-. congruence.
   - (* Evaluated *)
@@ -366,7 +590,7 @@ Proof.
 Qed.
 
 Lemma alloc_list_ref : forall es h nrho rho h1 ls,
-  alloc_list h nrho es = (h1, ls) -> Inv h -> forallb acyclic es = true -> UE h nrho rho ->
+  alloc_list h nrho es = (h1, ls) -> Inv h -> forallb wft es = true -> UE h nrho rho ->
   hext h h1 /\ Inv h1 /\ Forall2 (U h1) ls (map (fun e => BClos e rho) es).
 Proof.
   induction es as [|e es IH]; intros h nrho rho h1 ls Hal Hinv Hac Hr; cbn [alloc_list] in Hal.
@@ -374,66 +598,72 @@ Proof.
   - cbn [forallb] in Hac. apply andb_prop in Hac. destruct Hac as [Ha1 Ha2].
     unfold alloc in Hal.
     destruct (alloc_ref h e nrho rho Hinv Ha1 Hr) as [Hx0 [Hinv0 Hu0]].
-    destruct (alloc_list (h ++ [mkcell e nrho Suspended None]) nrho es) as [h2 ls2] eqn:E.
+    destruct (alloc_list (h ++ [mkcell e nrho Standard Suspended None]) nrho es) as [h2 ls2] eqn:E.
     injection Hal as <- <-.
     destruct (IH _ _ rho _ _ E Hinv0 Ha2 (UE_mono _ _ _ _ Hx0 Hr)) as [Hx1 [Hinv1 Hf]].
     split; [eapply hext_trans; eauto|]. split; [assumption|].
     cbn [map]. constructor; [eapply U_mono; eauto|assumption].
 Qed.
 
-Lemma field_locs_U : forall (fs : list (string * tm)) h base rho nrho,
-  (forall i p, nth_error fs i = Some p ->
-     exists c, nth_error h (base + i) = Some c /\ c_tm c = snd p /\ c_env c = nrho /\
-               acyclic (snd p) = true) ->
-  UE h nrho rho ->
-  Forall2 (fun p q => fst p = fst q /\ U h (snd p) (snd q))
-    (field_locs base fs) (map (fun p => (fst p, BClos (snd p) rho)) fs).
+Lemma alloc_rec_ref : forall h x e nrho rho,
+  Inv h -> wft e = true -> UE h nrho rho ->
+  let l := List.length h in
+  let h' := h ++ [mkcell e ((x, l) :: nrho) Standard Suspended None] in
+  hext h h' /\ Inv h' /\ UE h' ((x, l) :: nrho) ((x, BRec true [(x, e)] rho x) :: rho).
 Proof.
-  induction fs as [|[f e] fs IH]; intros h base rho nrho Hc Hr; cbn [field_locs map]; constructor.
-  - cbn [fst snd]. split; [reflexivity|].
-    destruct (Hc 0 (f, e) eq_refl) as [c [Hn [E1 [E2 Ha]]]]. rewrite Nat.add_0_r in Hn.
-    cbn [snd] in *. rewrite <- E1. apply U_cell; [assumption|congruence|congruence].
-  - apply (IH h (S base) rho nrho); [|assumption]. intros i p Hp.
-    destruct (Hc (S i) p Hp) as [c Hcc]. exists c. now rewrite Nat.add_succ_comm.
+  intros h x e nrho rho Hinv Ha Hr l h'. subst l h'.
+  set (h' := h ++ [mkcell e ((x, List.length h) :: nrho) Standard Suspended None]).
+  assert (Hx : hext h h') by apply hext_app.
+  assert (Hg : group h' (List.length h) true [(x, e)] nrho).
+  { intros [|[|j]] p Hp; cbn in Hp; try discriminate. injection Hp as <-.
+    exists (mkcell e ((x, List.length h) :: nrho) Standard Suspended None). cbn.
+    rewrite Nat.add_0_r. split; [apply nth_error_app_new|auto]. }
+  assert (Hu : U h' (List.length h) (BRec true [(x, e)] rho x)).
+  { replace (List.length h) with (List.length h + 0) at 1 by lia.
+    apply (U_grp h' (List.length h) true [(x, e)] nrho rho 0 (x, e)); auto.
+    - eapply UE_older; eauto.
+    - eapply UE_mono; eauto. }
+  split; [assumption|]. split.
+  - apply Inv_app; [assumption|]. intros [|[|j]] c Hc; cbn in Hc; try discriminate.
+    injection Hc as <-. cbn. repeat split; auto. rewrite Nat.add_0_r. eauto.
+  - constructor; [assumption|]. eapply UE_mono; eauto.
 Qed.
 
 Lemma alloc_fields_ref : forall fs h nrho rho h1 ls,
   alloc_fields h nrho fs = (h1, ls) -> Inv h ->
-  forallb (fun p => acyclic (snd p) && negb (has_deps (map fst fs) (snd p))) fs = true ->
+  nodup_names (map fst fs) = true -> forallb (fun p => wft (snd p)) fs = true ->
   UE h nrho rho ->
   hext h h1 /\ Inv h1 /\
   Forall2 (fun p q => fst p = fst q /\ U h1 (snd p) (snd q)) ls (map (field_binding fs rho) fs).
 Proof.
-  intros fs h nrho rho h1 ls Hal Hinv Hac Hr. unfold alloc_fields in Hal. injection Hal as <- <-.
-  rewrite forallb_forall in Hac.
-  assert (Hcells : map (fun p : string * tm =>
-                          mkcell (snd p) (if has_deps (map fst fs) (snd p)
-                                          then field_locs (List.length h) fs ++ nrho else nrho)
-                                 Suspended None) fs
-                   = map (fun p : string * tm => mkcell (snd p) nrho Suspended None) fs).
-  { apply map_ext_in. intros p Hp. specialize (Hac p Hp). apply andb_prop in Hac.
-    destruct Hac as [_ Hd]. apply negb_true_iff in Hd. now rewrite Hd. }
-  rewrite Hcells.
-  assert (Hbind : map (field_binding fs rho) fs = map (fun p => (fst p, BClos (snd p) rho)) fs).
-  { apply map_ext_in. intros p Hp. specialize (Hac p Hp). apply andb_prop in Hac.
-    destruct Hac as [_ Hd]. apply negb_true_iff in Hd. unfold field_binding. now rewrite Hd. }
-  rewrite Hbind.
-  set (cs := map (fun p : string * tm => mkcell (snd p) nrho Suspended None) fs).
-  split; [apply hext_app|]. split.
-  - apply Inv_app; [assumption|]. intros c Hc. unfold cs in Hc. apply in_map_iff in Hc.
-    destruct Hc as [p [<- Hp]]. cbn. specialize (Hac p Hp). apply andb_prop in Hac.
-    destruct Hac as [Ha _]. repeat split; auto. exists rho. eapply UE_mono; [apply hext_app|eassumption].
-  - apply (field_locs_U fs (h ++ cs) (List.length h) rho nrho).
-    + intros i p Hp. exists (mkcell (snd p) nrho Suspended None). cbn.
-      rewrite nth_error_app2 by lia. replace (List.length h + i - List.length h) with i by lia.
-      unfold cs. rewrite nth_error_map, Hp. cbn. repeat split; auto.
-      apply nth_error_In in Hp. specialize (Hac p Hp). apply andb_prop in Hac. tauto.
-    + eapply UE_mono; [apply hext_app|eassumption].
+  intros fs h nrho rho h1 ls Hal Hinv Hn Hw Hr. unfold alloc_fields in Hal. injection Hal as <- <-.
+  set (base := List.length h).
+  set (mk := fun p : string * tm =>
+               if has_deps (map fst fs) (snd p)
+               then mkcell (snd p) (field_locs base fs ++ nrho) Revertible Suspended None
+               else mkcell (snd p) nrho Standard Suspended None).
+  set (h1 := h ++ map mk fs).
+  assert (Hx : hext h h1) by apply hext_app.
+  assert (Hg : group h1 base false fs nrho).
+  { intros j p Hp. exists (mk p). unfold h1, base. rewrite nth_error_app2 by lia.
+    replace (List.length h + j - List.length h) with j by lia.
+    rewrite nth_error_map, Hp. split; [reflexivity|]. unfold mk, sees. cbn [orb].
+    destruct (has_deps (map fst fs) (snd p)); cbn; auto. }
+  assert (Ho : older base nrho) by (eapply UE_older; eauto).
+  assert (Hr1 : UE h1 nrho rho) by (eapply UE_mono; eauto).
+  split; [assumption|]. split.
+  - apply Inv_app; [assumption|]. intros j c Hc. rewrite nth_error_map in Hc.
+    destruct (nth_error fs j) as [p|] eqn:Hp; [|discriminate]. injection Hc as <-.
+    rewrite forallb_forall in Hw. pose proof (Hw p (nth_error_In _ _ Hp)) as Hwp.
+    split; [unfold mk; destruct (has_deps (map fst fs) (snd p)); reflexivity|].
+    split; [unfold mk; destruct (has_deps (map fst fs) (snd p)); exact Hwp|].
+    eexists. apply (group_member_U h1 base false fs nrho rho j p); eauto.
+  - unfold field_binding. apply (group_members h1 base false fs nrho rho); auto.
 Qed.
 
 Lemma index_of_spec : forall f (l : files) i,
   index_of f l = Some i ->
-  exists e, lookup f l = Some e /\ nth_error (init_heap l) i = Some (mkcell e [] Suspended None).
+  exists e, lookup f l = Some e /\ nth_error (init_heap l) i = Some (mkcell e [] Standard Suspended None).
 Proof.
   induction l as [|[g e] l IH]; intros i H; cbn [index_of] in H; [discriminate|].
   cbn [lookup init_heap map]. destruct (String.eqb f g).
@@ -449,24 +679,21 @@ Proof.
   destruct (index_of f l); [discriminate|]. auto.
 Qed.
 
-Lemma lookup_acyclic : forall f e, lookup f fl = Some e -> acyclic e = true.
+Lemma lookup_wft : forall f e, lookup f fl = Some e -> wft e = true.
 Proof.
-  intros f e H. apply lookup_In in H. rewrite forallb_forall in fl_acyclic.
-  exact (fl_acyclic (f, e) H).
+  intros f e H. apply lookup_In in H. rewrite forallb_forall in fl_wf.
+  exact (fl_wf (f, e) H).
 Qed.
-
-Lemma force_clos : forall m t rho, force fl m (BClos t rho) = eval fl m rho t.
-Proof. reflexivity. Qed.
 
 Theorem evalN_refines : forall n, refines_at n.
 Proof.
   induction n as [|k IH]; intros h nrho t r h' rho He Ho Hi Hac Hinv Hr Hf.
   - cbn in He. injection He as <- <-. congruence.
   - pose proof (enter_ref k IH) as ENT.
-    destruct t; cbn [evalN acyclic] in He, Hac;
+    destruct t; cbn [evalN wft] in He, Hac;
       repeat match goal with
       | H : _ && _ = true |- _ => apply andb_prop in H; destruct H
-      end; try discriminate.
+      end.
     + (* Var *)
       destruct (lookup x nrho) as [l|] eqn:L.
       * destruct (UE_lookup _ _ _ _ _ Hr L) as [b [Lb Ub]].
@@ -486,7 +713,7 @@ Proof.
                cbn [eval]; rewrite Ev1; reflexivity).
         unfold alloc in He.
         destruct (alloc_ref h1 t2 nrho rho Hinv1 H0 (UE_mono _ _ _ _ Hx1 Hr)) as [Hx2 [Hinv2 Hu2]].
-        assert (Hr2 : UE (h1 ++ [mkcell t2 nrho Suspended None]) ((x, List.length h1) :: nrho')
+        assert (Hr2 : UE (h1 ++ [mkcell t2 nrho Standard Suspended None]) ((x, List.length h1) :: nrho')
                         ((x, BClos t2 rho) :: rho')).
         { constructor; [assumption|]. eapply UE_mono; eauto. }
         pose proof (IH _ _ _ _ _ _ He Ho Hi Hab Hinv2 Hr2
@@ -502,9 +729,14 @@ Proof.
     + (* Let *)
       unfold alloc in He.
       destruct (alloc_ref h t1 nrho rho Hinv H Hr) as [Hx2 [Hinv2 Hu2]].
-      assert (Hr2 : UE (h ++ [mkcell t1 nrho Suspended None]) ((x, List.length h) :: nrho)
+      assert (Hr2 : UE (h ++ [mkcell t1 nrho Standard Suspended None]) ((x, List.length h) :: nrho)
                       ((x, BClos t1 rho) :: rho)).
       { constructor; [assumption|]. eapply UE_mono; eauto. }
+      pose proof (IH _ _ _ _ _ _ He Ho Hi H0 Hinv2 Hr2 (hext_trans _ _ _ Hf Hx2)) as R.
+      eapply res_ok_hext; [exact Hx2|]. eapply res_ok_shift; [|exact R].
+      intros m o Hm Hne. exists (S m). exact Hm.
+    + (* LetRec *)
+      destruct (alloc_rec_ref h x t1 nrho rho Hinv H Hr) as [Hx2 [Hinv2 Hr2]].
       pose proof (IH _ _ _ _ _ _ He Ho Hi H0 Hinv2 Hr2 (hext_trans _ _ _ Hf Hx2)) as R.
       eapply res_ok_hext; [exact Hx2|]. eapply res_ok_shift; [|exact R].
       intros m o Hm Hne. exists (S m). exact Hm.
@@ -596,7 +828,7 @@ Proof.
       * injection He as <- <-. congruence.
     + (* Rec *)
       destruct (alloc_fields h nrho fs) as [h1 ls] eqn:E. injection He as <- <-.
-      destruct (alloc_fields_ref _ _ _ rho _ _ E Hinv Hac Hr) as [Hx1 [Hinv1 Hl]].
+      destruct (alloc_fields_ref _ _ _ rho _ _ E Hinv H H0 Hr) as [Hx1 [Hinv1 Hl]].
       split; [assumption|]. split; [assumption|].
       exists 1, (VRec (map (field_binding fs rho) fs)). split; [reflexivity|]. now constructor.
     + (* Get *)
@@ -638,8 +870,7 @@ Proof.
       * destruct (index_of_spec _ _ _ E) as [e [L N]].
         destruct (Hf _ _ N) as [c [Hc [E1 E2]]]. cbn in E1, E2.
         assert (Ub : U h i (BClos e [])).
-        { rewrite <- E1. apply U_cell; [assumption| |rewrite E2; constructor].
-          rewrite E1. eapply lookup_acyclic; eauto. }
+        { destruct E2 as [E2 E3]. rewrite <- E1. apply U_cell; [assumption|exact E3|rewrite E2; constructor|rewrite E2; constructor]. }
         eapply res_ok_shift; [|exact (ENT _ _ _ _ _ He Ho Hi Hinv Ub Hf)].
         intros m o Hm _. exists (S m). rewrite force_clos. cbn [eval]. rewrite L. exact Hm.
       * injection He as <- <-. split; [apply hext_refl|]. exists 1. rewrite force_clos. cbn.
@@ -810,18 +1041,18 @@ Qed.
 Lemma Inv_init : Inv (init_heap fl).
 Proof.
   split.
-  - intros l c Hc. unfold init_heap in Hc. apply nth_error_In in Hc. apply in_map_iff in Hc.
-    destruct Hc as [p [<- Hp]]. cbn. rewrite forallb_forall in fl_acyclic. split; [now apply fl_acyclic|].
-    exists []. constructor.
+  - intros l c Hc. pose proof Hc as Hc'. unfold init_heap in Hc. apply nth_error_In in Hc. apply in_map_iff in Hc.
+    destruct Hc as [p [<- Hp]]. cbn. rewrite forallb_forall in fl_wf. split; [now apply fl_wf|].
+    exists (BClos (snd p) []).
+    apply (U_cell _ _ (mkcell (snd p) [] Standard Suspended None)); cbn; auto; constructor.
   - intros l c b Hc Hs. unfold init_heap in Hc. apply nth_error_In in Hc. apply in_map_iff in Hc.
     destruct Hc as [p [<- Hp]]. discriminate.
 Qed.
 
-(* whenever the call-by-need run of a program of the acyclic fragment returns a result (other
-   than running out of fuel or reporting a black hole), the call-by-name semantics returns the
-   same result for some fuel *)
+(* whenever the call-by-need run of a program returns a result (other than running out of fuel
+   or reporting a black hole), the call-by-name semantics returns the same result for some fuel *)
 Theorem need_refines_name : forall n t r h,
-  acyclic t = true ->
+  wft t = true ->
   runN fl Good n t = (r, h) -> r <> OutOfFuel -> r <> Err InfiniteRec ->
   exists m, run fl m [] t = r.
 Proof.
@@ -881,7 +1112,7 @@ Proof.
 Qed.
 
 Theorem need_extract_refines_name : forall n t path r h,
-  acyclic t = true ->
+  wft t = true ->
   extractN fl Good n t path = (r, h) -> r <> OutOfFuel -> r <> Err InfiniteRec ->
   exists m, extract fl m [] t path = r.
 Proof.
